@@ -12,11 +12,11 @@ for s in 2 3 4; do
 done
 echo "== matrix $(date)" >> $LOG
 tools/selftest.py -j 3 C D >> /tmp/final_matrix.log 2>&1
-echo "== benign $(date)" >> $LOG
-tools/selftest.py -j 3 benign >> /tmp/final_benign.log 2>&1
 echo "== thorough $(date)" >> $LOG
 for c in $(seq -w 1 18); do
   /usr/bin/time -f "C$c thorough %es" env VERIF_EVIDENCE_DIR=/tmp/final-ev-th VERIF_OUT_DIR=/tmp/final-ev-th timeout 7200 bin/check C$c thorough > /tmp/final-one.log 2>&1; rc=$?
   echo "C$c thorough rc=$rc $(tail -2 /tmp/final-one.log | tr '\n' ' ' | cut -c1-220)" >> $LOG
 done
+echo "== benign $(date)" >> $LOG
+tools/selftest.py -j 3 benign >> /tmp/final_benign.log 2>&1
 echo "== done $(date)" >> $LOG
